@@ -118,6 +118,40 @@ fn main() {
             let ph = api::Val::dec(&args[3]).expect("placeholder");
             println!("{}", api::eval(ev, &args[4], &ph).enc());
         }
+        "c18cases" => {
+            // (bits, expected probe line) pairs for the feature stage of C18: Number::from in builds with fewer features
+            use proptest::strategy::{Strategy, ValueTree};
+            let seed: u64 = arg_after(&args, "--seed").and_then(|s| s.parse().ok()).unwrap_or(0);
+            let count: u64 = arg_after(&args, "--count").and_then(|s| s.parse().ok()).unwrap_or(20000);
+            let prop = props::by_id("C18").unwrap();
+            let mut inputs: Vec<String> = Vec::new();
+            let n = prop.subs(Tier::Quick).iter().find(|s| s.name == "boundary").map(|s| if let run::SubKind::Enum { count } = s.kind { count } else { 0 }).unwrap_or(0);
+            for i in 0..n {
+                if let Some(c) = prop.gen_enum("boundary", i, Tier::Quick) {
+                    inputs.push(c.input);
+                }
+            }
+            let cfg = proptest::test_runner::Config { failure_persistence: None, ..Default::default() };
+            let rng = proptest::test_runner::TestRng::from_seed(proptest::test_runner::RngAlgorithm::ChaCha, &util::seed_bytes(seed, "C18", "features", 0));
+            let mut runner = proptest::test_runner::TestRunner::new_with_rng(cfg, rng);
+            let strat = proptest::collection::vec(proptest::prelude::any::<u16>(), 6..=6);
+            for k in 0..count {
+                let seq = strat.new_tree(&mut runner).unwrap().current();
+                let mut c = choice::Seq::new(&seq);
+                if let Some(case) = prop.gen(if k % 2 == 0 { "random" } else { "random-exp" }, &mut c) {
+                    inputs.push(case.input);
+                }
+            }
+            for i in inputs {
+                if let Ok(bits) = u64::from_str_radix(i.trim_start_matches("0x"), 16) {
+                    let want = match props::c18::classify(bits) {
+                        Ok(n) => format!("ok numi:{}", n),
+                        Err(()) => format!("ok numf:{:#018x}", bits),
+                    };
+                    println!("{}\t{}", i, want);
+                }
+            }
+        }
         "gencases" => {
             // case file for C17 (feature subsets): regression corpus + seeded random expressions per evaluator
             use proptest::strategy::{Strategy, ValueTree};
